@@ -54,7 +54,7 @@ class Recorder:
         self.direction = None
 
 
-def build(tree, thick, ops=("mean", "sum"), with_dx=True, resolution=None, vector_2d=False):
+def build(tree, thick, ops=("mean", "sum"), with_dx=True, resolution=None, vector_2d=False, with_dy=True, direction="z"):
     hooks = core_hooks()
     hooks["ext"].update(np_hooks({
         "numpy.abs": lambda x: OpTok("abs", x, None) if isinstance(x, ArrTok) else Sym(("abs", origin_of(x))),
@@ -104,7 +104,7 @@ def build(tree, thick, ops=("mean", "sum"), with_dx=True, resolution=None, vecto
                         "plot/direction.py::get_direction": basis_stub, "plot/utils.py::evaluate_on_grid": kernel_stub,
                         "plot/render.py::render": lambda **kw: setattr(rec, "render", kw) or {"ax": None, "fig": None}}
     dx = QT("DX@kpc", "kpc") if with_dx else None
-    kwargs = dict(direction="z", dx=dx, dy=QT("DY@kpc", "kpc") if with_dx else None, dz=(QT("DZ@kpc", "kpc") if thick else None), plot=False,
+    kwargs = dict(direction=direction, dx=dx, dy=QT("DY@kpc", "kpc") if with_dx and with_dy else None, dz=(QT("DZ@kpc", "kpc") if thick else None), plot=False,
                   operation="max", resolution=resolution)
     fi = tree.func(MAP)
     ev = ModelEval(tree, fi, {}, hooks)
@@ -350,6 +350,46 @@ def check_map(run, tree, aspects=("slots", "rendered", "geometry", "inputs"), de
                        "a second map with the same resolution dict inherits the derived depth resolution of the first", nontrivial=False)
         except ERR as e:
             run.unresolved("%s[%s]" % (MAP, label), fi.where(), "cannot fold: %s" % e)
+
+
+# =============================================================================== what map() hands to get_direction
+def check_map_direction_call(run, tree):
+    """map() asks get_direction for the basis with the caller's direction, the first layer as data, the window width and HEIGHT (dy; dx when
+    dy is not given) in the spatial unit, and the origin: 'top'/'side' take the angular momentum of the cells within that window"""
+    fi = tree.func(MAP)
+    run.analysed(fi)
+    for label, thick, with_dy, direction in (("thick map, dx, dy, dz given", True, True, "top"), ("thin map, dx and dy given", False, True, "side"),
+                                             ("thick map, dy omitted", True, False, "top"), ("thin map, axis letters", False, True, "xzy")):
+        construct = "%s::get_direction-call[%s]" % (MAP, label)
+        try:
+            try:
+                rec, out, layers, hooks = build(tree, thick, ("mean", "sum"), resolution={"x": 8, "y": 6}, with_dy=with_dy, direction=direction)
+            except (Raised, ProgramRaised) as e:
+                run.violated(construct, fi.where(), "raises %s" % e, "map(direction=%r)" % direction)
+                continue
+            d = rec.direction
+            problems = []
+            if d is None:
+                problems.append("get_direction is not called for 3-D data")
+            else:
+                if d["direction"] != direction:
+                    problems.append("direction handed over is %r (given %r)" % (d["direction"], direction))
+                for k_, want in (("dx", "DX@m"), ("dy", "DY@m" if with_dy else "DX@m")):
+                    got = getattr(d[k_], "tag", d[k_])
+                    if got != want:
+                        problems.append("%s handed over is %s (required %s: the window %s in the unit of the positions)" % (k_, got, want, "width" if k_ == "dx" else "height"))
+                data = d["data"]
+                arrs = data._attrs.get("arrays") if isinstance(data, PyObj) else data
+                first = layers[0]._attrs.get("arrays")
+                if not (data is layers[0] or (arrs is not None and (arrs is first or arrs == first))):
+                    problems.append("data handed over is not the first layer")
+                o = d["origin"]
+                if not (isinstance(o, PyObj) and o._cls.qual == VECTOR_Q):
+                    problems.append("origin handed over is %r" % (o,))
+            run.ob(construct, not problems, fi.where(), "; ".join(problems[:3]) or "direction, first layer, window width and height (spatial unit), origin",
+                   "'top'/'side' compute the angular momentum inside another sphere than the window's (e.g. the slab depth dz instead of the height dy)")
+        except ERR as e:
+            run.unresolved(construct, fi.where(), "cannot fold: %s" % e)
 
 
 # =============================================================================== reach of every pre-selection mask
